@@ -883,8 +883,20 @@ cnt_cand(const bitint383_t *cand)
 	return nbits;
 }
 
+static inline unsigned int
+scale_ndom(echs_scale_t s, unsigned int y, unsigned int m)
+{
+/* days of month M of year Y in the rule's scale, 0 if S doesn't reach there */
+	if (LIKELY(s == SCALE_GREGORIAN)) {
+		return __get_ndom(y, m);
+	}
+	return echs_scale_ndim(s, y, m);
+}
+
 static void
-shift(bitint383_t cand[static 3U], const unsigned int y, echs_shift_t sh)
+shift(
+	bitint383_t cand[static 3U], echs_scale_t s,
+	const unsigned int y, echs_shift_t sh)
 {
 
 	if (LIKELY(!sh)) {
@@ -902,6 +914,7 @@ shift(bitint383_t cand[static 3U], const unsigned int y, echs_shift_t sh)
 			int nu_d = md.d + d;
 			int nu_m = md.m;
 			unsigned int nu_y = y;
+			unsigned int ndom;
 
 		reassess:
 			if (UNLIKELY(nu_d <= 0)) {
@@ -909,11 +922,17 @@ shift(bitint383_t cand[static 3U], const unsigned int y, echs_shift_t sh)
 				if (UNLIKELY(--nu_m <= 0)) {
 					nu_m += 12, nu_y--;
 				}
-				nu_d += __get_ndom(nu_y, nu_m);
+				if (UNLIKELY(!(ndom = scale_ndom(s, nu_y, nu_m)))) {
+					/* beyond the scale's reach */
+					continue;
+				}
+				nu_d += ndom;
 				goto reassess;
-			} else if (UNLIKELY(nu_d > (int)__get_ndom(nu_y, nu_m))) {
+			} else if (UNLIKELY(!(ndom = scale_ndom(s, nu_y, nu_m)))) {
+				continue;
+			} else if (UNLIKELY(nu_d > (int)ndom)) {
 				/* fixup too, grrr */
-				nu_d -= __get_ndom(nu_y, nu_m);
+				nu_d -= ndom;
 				if (UNLIKELY(++nu_m > 12)) {
 					nu_m -= 12, nu_y++;
 				}
@@ -938,9 +957,17 @@ shift(bitint383_t cand[static 3U], const unsigned int y, echs_shift_t sh)
 				int nu_d = md.d;
 				int nu_m = md.m;
 				unsigned int nu_y = y - (k == 1U) + (k == 2U);
-				echs_wday_t w = ymd_get_wday(nu_y, nu_m, nu_d);
+				echs_wday_t w = LIKELY(s == SCALE_GREGORIAN)
+					? ymd_get_wday(nu_y, nu_m, nu_d)
+					: echs_scale_wday(s, nu_y, nu_m, nu_d);
 				unsigned int u5, u7;
+				unsigned int ndom;
 				int nu_b = b;
+
+				if (UNLIKELY(w == MIR)) {
+					/* beyond the scale's reach */
+					continue;
+				}
 
 				if (w >= SAT) {
 					if (!echs_shift_neg_p(sh)) {
@@ -972,11 +999,17 @@ shift(bitint383_t cand[static 3U], const unsigned int y, echs_shift_t sh)
 					if (UNLIKELY(--nu_m <= 0)) {
 						nu_m += 12, nu_y--;
 					}
-					nu_d += __get_ndom(nu_y, nu_m);
+					if (UNLIKELY(!(ndom = scale_ndom(s, nu_y, nu_m)))) {
+						/* beyond the scale's reach */
+						continue;
+					}
+					nu_d += ndom;
 					goto reassessB;
-				} else if (UNLIKELY(nu_d > (int)__get_ndom(nu_y, nu_m))) {
+				} else if (UNLIKELY(!(ndom = scale_ndom(s, nu_y, nu_m)))) {
+					continue;
+				} else if (UNLIKELY(nu_d > (int)ndom)) {
 					/* fixup too, grrr */
-					nu_d -= __get_ndom(nu_y, nu_m);
+					nu_d -= ndom;
 					if (UNLIKELY(++nu_m > 12)) {
 						nu_m -= 12, nu_y++;
 					}
@@ -1176,7 +1209,7 @@ rrul_fill_yly(echs_instant_t *restrict tgt, size_t nti, rrulsp_t rr)
 		}
 
 		/* do the shifts */
-		shift(cand, y, rr->shift);
+		shift(cand, srcsca, y, rr->shift);
 
 		/* now check the bitset */
 		for (int iy = -1; iy <= 1; iy++) {
@@ -1398,7 +1431,7 @@ rrul_fill_mly(echs_instant_t *restrict tgt, size_t nti, rrulsp_t rr)
 		}
 
 		/* do the shifts */
-		shift(cand, y, rr->shift);
+		shift(cand, srcsca, y, rr->shift);
 
 		/* now check the bitset */
 		for (int iy = -1; iy <= 1; iy++) {
